@@ -521,7 +521,7 @@ def gen(rng, tier):
         if not finite(bits):
             bits = d2b(1.5)
         yield {"lines": ["rt %d %s" % (f, dump(('a', [('d', bits, t)]))) for f in (0, 4, 35)]}
-    n = 1500 if quick else 120000
+    n = 4000 if quick else 120000
     for _ in range(n):
         b = rand_double_bits(rng)
         if finite(b):
@@ -543,16 +543,16 @@ def gen(rng, tier):
                 if x != float("inf"):
                     yield {"lines": ["g17 %016x" % d2b(x), "rt %d d%016x" % (rng.choice(ALL_FLAGS), d2b(x))]}
     # 4. strings
-    for _ in range(500 if quick else 20000):
+    for _ in range(1500 if quick else 20000):
         s = rand_string(rng)
         yield {"lines": lines_for(rng, ('s', s), 2, 0.7)}
-    for _ in range(250 if quick else 6000):
+    for _ in range(600 if quick else 6000):
         yield {"lines": [gen_sset(rng)]}
     # 5. random trees
-    for _ in range(900 if quick else 15000):
+    for _ in range(2500 if quick else 15000):
         v = rand_tree(rng, rng.choice([1, 2, 3, 4, 6]))
         yield {"lines": lines_for(rng, v, 3 if quick else 6)}
-    for _ in range(20 if quick else 300):
+    for _ in range(40 if quick else 300):
         v = rand_tree(rng, rng.choice([2, 3]))
         yield {"lines": lines_for(rng, v, 64)}
     # 6. deep nesting around the tokener limit, wide containers (printbuf growth)
